@@ -81,7 +81,7 @@ CLAIMED["C03"] = ("model_checking",
   "Expressions come from fixed menus (the expression language itself is C04/C12/C13). Relative order of repeated --select/--sort-by is kept, as the property states.",
   "DESIGN.md §5 C03")
 CLAIMED["C11"] = ("model_checking",
-  "bounded-exhaustive enumeration of input sequences x stateless pipelines x output styles on jawk::go with a metamorphic oracle (output of a sequence = header + concatenation of the single-value bodies)",
+  "bounded-exhaustive enumeration of input sequences x stateless pipelines x output styles on jawk::go - and, for every pipeline and style, of singles, pairs and A B A triples on the real executable with one process per run - with a metamorphic oracle (output of a sequence = header + concatenation of the single-value bodies)",
   "All sequences of <=5 (thorough 7) values over a 6-value universe under 18 stateless pipelines (regex with cache sizes 0/1/2 and per-record patterns, --set variables and macros that read ^ / a variable, --split-by, selected names, define/set/fold) in six output styles must print exactly the header followed by the bodies each value prints on its own; this covers every concatenation A.B, permutation and duplication within the bound.",
   "No & selector and no stateful option is used (the property excludes them).",
   "DESIGN.md §5 C11")
@@ -126,7 +126,7 @@ for p in props:
         na.append({"property_id":i,"reason":NOT_YET.get(i,"check not built yet in this round (planned: bounded-exhaustive exploration per DESIGN.md §5); nothing is claimed for it")})
 m={"version":1,"setup_cmd":"./setup.sh",
  "hooks":{"guard":"yift_jawk_verif","enable":"none needed: no source hooks exist; the harness drives the public jawk::go / Cli API and the built executable (guard name reserved)","baseline_off_cmd":BASE,"source_commits":[],"add_only":True},
- "engines":[{"name":"jv","path":"harness","serves_properties":[c["property_id"] for c in checks],"kind_free_text":"stateless bounded-exhaustive explorer of the real code (in-process jawk::go with fault-injecting reader/writers; child processes for the executable) in lock-step with Rust reference models; 16 worker processes over static slices"}],
+ "engines":[{"name":"jv","path":"harness","serves_properties":[c["property_id"] for c in checks],"kind_free_text":"stateless bounded-exhaustive explorer of the real code (in-process jawk::go with fault-injecting reader/writers; child processes for the executable) in lock-step with Rust reference models; 16 worker processes over static slices; every 97th run is repeated on a thread of its own and, if that ever diverges, the whole check is repeated with every run on a thread of its own (state the subject keeps between runs)"}],
  "checks":checks,"not_applicable":na,
  "notes":"exit 0 = held on everything explored (KNOWN-FINDING lines allowed), 1 = VIOLATION line(s), 2 = machinery failure (never a verdict). Known findings: known_findings.json. Seeded property-breaking changes: seeded/."}
 json.dump(m,open('/verif/MANIFEST.json','w'),indent=1)
